@@ -32,7 +32,7 @@ FUNCTIONS = [
     "unified_planning.engines.mixins.oneshot_planner:OneshotPlannerMixin.solve",
     "unified_planning.engines.plan_validator:SequentialPlanValidator._validate",
 ]
-BOUNDS = ("IF programs: n:int[0,4], b:bool; F from 5 lambdas, B from 4 lambdas; 16 problem shapes (IF in a precondition: comparison / equality / "
+BOUNDS = ("IF programs: n:int[0,4], b:bool; F from 5 lambdas, B from 4 lambdas; 18 problem shapes (IF in a precondition: comparison / equality / "
           "Boolean function / negated / mixed with arithmetic / disjunction / nested F(F(n)) / F(n+1); IF as numeric effect value; as Boolean effect value; in precondition and effect "
           "value of one action; in the condition of a conditional effect), "
           "constants c in {0,2,3}, initial n in {0,1}; K = 10 = |state space|.  Oversubscription programs: a,b,c:bool, n:int[0,2], 3 action "
@@ -47,7 +47,7 @@ F_POOL = [lambda v: v * v - 2, lambda v: 4 - v, lambda v: (2 * v) % 5, lambda v:
 F_NAMES = ["v*v-2", "4-v", "(2v)%5", "3", "v+1"]
 B_POOL = [lambda v: v % 2 == 0, lambda v: v >= 3, lambda v: False, lambda v: v == 1]
 B_NAMES = ["even", ">=3", "false", "==1"]
-IF_SHAPES = ["pre-lt", "pre-eq", "pre-bool", "pre-notbool", "pre-arith", "pre-or", "pre-nested", "pre-argplus", "eff-num", "eff-bool", "eff-both", "eff-cond", "eff-chain", "eff-chain-bool", "eff-then-dec", "eff-stale-bounds"]
+IF_SHAPES = ["pre-lt", "pre-eq", "pre-bool", "pre-notbool", "pre-arith", "pre-or", "pre-nested", "pre-argplus", "pre-two-calls", "pre-two-calls-mixed", "eff-num", "eff-bool", "eff-both", "eff-cond", "eff-chain", "eff-chain-bool", "eff-then-dec", "eff-stale-bounds"]
 NMAX = 4
 
 
@@ -74,7 +74,10 @@ def build_if(env, shape, fi, bi, c, x0):
         cond = {"pre-lt": lambda: em.LT(Fn, c), "pre-eq": lambda: em.Equals(Fn, c), "pre-bool": lambda: Bn,
                 "pre-notbool": lambda: em.Not(Bn), "pre-arith": lambda: em.GT(em.Plus(Fn, n()), c + 3),
                 "pre-or": lambda: em.Or(Bn, em.Equals(Fn, c)), "pre-nested": lambda: em.Equals(F(Fn), c),
-                "pre-argplus": lambda: em.LT(F(em.Plus(n(), 1)), c)}[shape]()
+                "pre-argplus": lambda: em.LT(F(em.Plus(n(), 1)), c),
+                # ONE atom with two interpreted calls, the argument of one of them never changes (its value is learnt first)
+                "pre-two-calls": lambda: em.LT(F(em.Int(c)), Fn),
+                "pre-two-calls-mixed": lambda: em.Iff(Bn, em.LT(F(em.Int(c)), 3))}[shape]()
         gate.add_precondition(cond)
         gate.add_effect(b, True)
         p.add_action(gate)
@@ -209,7 +212,7 @@ def h_if(ctx, shape, fis=None, bis=None, cs=(0, 2, 3), x0s=(0, 1)):
     from vf.refsem import Ref
 
     uses_f = shape not in ("pre-bool", "pre-notbool", "eff-bool", "eff-chain-bool")
-    uses_b = shape in ("pre-bool", "pre-notbool", "pre-or", "eff-bool", "eff-both", "eff-cond", "eff-chain-bool")
+    uses_b = shape in ("pre-bool", "pre-notbool", "pre-or", "pre-two-calls-mixed", "eff-bool", "eff-both", "eff-cond", "eff-chain-bool")
     if shape == "pre-nested":  # keep F(F(n)) inside the tabulated domain
         fis = [i for i in (fis if fis is not None else range(len(F_POOL))) if i in (1, 2, 3)]
     fis = list(fis) if fis is not None else list(range(len(F_POOL)))
@@ -378,7 +381,7 @@ def shards(tier, seed):
     if tier == "quick":
         for sh in IF_SHAPES:
             out.append(dict(name=f"if-{sh}", fn="h_if", engine="direct", budget=900, query_timeout=120,
-                            kwargs=dict(shape=sh, fis=[0, 1, 2, 4] if sh != "pre-eq" else [0, 2, 3, 4], bis=[0, 1, 3] if sh not in ("pre-or", "eff-both", "eff-cond") else [1, 3],
+                            kwargs=dict(shape=sh, fis=[0, 1, 2, 4] if sh != "pre-eq" else [0, 2, 3, 4], bis=[0, 1, 3] if sh not in ("pre-or", "eff-both", "eff-cond", "pre-two-calls-mixed") else [1, 3],
                                         cs=[0, 2, 3], x0s=[0, 1])))
         combos = [("swap", [0, 1, 3], 0), ("swap", [0, 4, 2], 1), ("chain", [0, 1, 2], 0), ("chain", [5, 3, 1], 2),
                   ("counter", [0, 1, 2], 0), ("counter", [5, 3, 4], 3), ("swap", [1, 5, 2], 2)]
